@@ -132,3 +132,123 @@ func GatewayTable(kind string, k, dpos, tokens, endBranch int) *prog.Program {
 	}
 	return b.Done()
 }
+
+// wrapSub nests `inner` (a builder callback producing a single-entry/single-exit
+// fragment inside scope sc) in d levels of sub-process; returns the outermost
+// sub node.
+func wrapSub(b *prog.Builder, scope string, d int, inner func(sc string) (string, string)) string {
+	p := b.AddNode("sub", scope)
+	s := b.AddNode("start", p)
+	var in, out string
+	if d <= 1 {
+		in, out = inner(p)
+	} else {
+		q := wrapSub(b, p, d-1, inner)
+		in, out = q, q
+	}
+	e := b.AddNode("end", p)
+	b.Connect(s, in, prog.Cond{})
+	b.Connect(out, e, prog.Cond{})
+	return p
+}
+
+// SubShapes: the sub-process corpus of C12 beyond random wrapping.
+func SubShapes() []*prog.Program {
+	var out []*prog.Program
+	oneTask := func(b *prog.Builder) func(string) (string, string) {
+		return func(sc string) (string, string) { t := b.AddNode("task", sc); return t, t }
+	}
+	parBlock := func(b *prog.Builder) func(string) (string, string) {
+		return func(sc string) (string, string) {
+			f := b.AddNode("and", sc)
+			j := b.AddNode("and", sc)
+			for i := 0; i < 2; i++ {
+				t := b.AddNode("task", sc)
+				b.Connect(f, t, prog.Cond{})
+				b.Connect(t, j, prog.Cond{})
+			}
+			return f, j
+		}
+	}
+	for d := 1; d <= 3; d++ {
+		for _, par := range []bool{false, true} {
+			// plain nesting
+			b := prog.NewBuilder(fmt.Sprintf("sub_depth%d_par%v", d, par))
+			s := b.AddNode("start", "")
+			inner := oneTask(b)
+			if par {
+				inner = parBlock(b)
+			}
+			p := wrapSub(b, "", d, inner)
+			t := b.AddNode("task", "")
+			e := b.AddNode("end", "")
+			b.Connect(s, p, prog.Cond{})
+			b.Connect(p, t, prog.Cond{})
+			b.Connect(t, e, prog.Cond{})
+			b.P.Tags = append(b.P.Tags, "sub", fmt.Sprintf("depth%d", d))
+			out = append(out, b.Done())
+
+			// re-entered in a loop
+			b = prog.NewBuilder(fmt.Sprintf("sub_loop_depth%d_par%v", d, par))
+			s = b.AddNode("start", "")
+			m := b.AddNode("xor", "")
+			inner = oneTask(b)
+			if par {
+				inner = parBlock(b)
+			}
+			p = wrapSub(b, "", d, inner)
+			dt := b.AddNode("task", "")
+			b.N(dt).Writes = []string{"again"}
+			b.P.Dom["again"] = []int{0, 1}
+			b.P.Vars0["again"] = 0
+			x := b.AddNode("xor", "")
+			e = b.AddNode("end", "")
+			b.Connect(s, m, prog.Cond{})
+			b.Connect(m, p, prog.Cond{})
+			b.Connect(p, dt, prog.Cond{})
+			b.Connect(dt, x, prog.Cond{})
+			b.Connect(x, m, prog.Cond{K: "eq", V: "again", C: 1})
+			df := b.Connect(x, e, prog.Cond{})
+			b.N(x).Default = df
+			b.P.Tags = append(b.P.Tags, "sub", "loop", "sub-in-loop", fmt.Sprintf("depth%d", d))
+			out = append(out, b.Done())
+		}
+		// in parallel branches
+		for k := 2; k <= 3; k++ {
+			b := prog.NewBuilder(fmt.Sprintf("sub_par%d_depth%d", k, d))
+			s := b.AddNode("start", "")
+			f := b.AddNode("and", "")
+			j := b.AddNode("and", "")
+			b.Connect(s, f, prog.Cond{})
+			for i := 0; i < k; i++ {
+				p := wrapSub(b, "", d, oneTask(b))
+				b.Connect(f, p, prog.Cond{})
+				b.Connect(p, j, prog.Cond{})
+			}
+			e := b.AddNode("end", "")
+			b.Connect(j, e, prog.Cond{})
+			b.P.Tags = append(b.P.Tags, "sub", "and", "sub-in-and", fmt.Sprintf("depth%d", d))
+			out = append(out, b.Done())
+		}
+	}
+	// two tokens inside the same sub-process at the same time
+	b := prog.NewBuilder("sub_concurrent_entry")
+	s := b.AddNode("start", "")
+	f := b.AddNode("and", "")
+	m := b.AddNode("xor", "")
+	b.Connect(s, f, prog.Cond{})
+	for i := 0; i < 2; i++ {
+		t := b.AddNode("task", "")
+		b.Connect(f, t, prog.Cond{})
+		b.Connect(t, m, prog.Cond{})
+	}
+	p := wrapSub(b, "", 1, oneTask(b))
+	b.Connect(m, p, prog.Cond{})
+	t := b.AddNode("task", "")
+	e := b.AddNode("end", "")
+	b.Connect(p, t, prog.Cond{})
+	b.Connect(t, e, prog.Cond{})
+	b.P.Tags = append(b.P.Tags, "sub", "sub-concurrent-entry")
+	out = append(out, b.Done())
+	return out
+}
